@@ -2,4 +2,4 @@
 statements, written in the Python subset that both pvc (symbolically) and
 CPython (natively, on replay) evaluate.  They are specification, not a model
 of the code: each real function is proved equal to its spec function."""
-from spec import nasa, eos, cov, mix, statmech, rxn, ids, thermdat, jsonrt, excel, chemkin
+from spec import nasa, eos, cov, mix, statmech, rxn, ids, thermdat, jsonrt, excel, chemkin, omkm
